@@ -9,6 +9,7 @@ import NdnGen.C07
 #print axioms Ndn.C07.strict_implies_accept_partial
 #print axioms Ndn.C07.overrun_accepted_counterexample
 #print axioms Ndn.Gen.C07.packet_schemas_ok
+#print axioms Ndn.Gen.C07.schemas_pinned
 #print axioms Ndn.C07.strict_accepts_well_nested
 #print axioms Ndn.C07.strict_agrees
 #print axioms Ndn.C07.strict_refines
